@@ -11,6 +11,7 @@ import (
 func init() {
 	verifRegister("VerifC15_KOrder", VerifC15_KOrder)
 	verifRegister("VerifC15_KOrderTrans", VerifC15_KOrderTrans)
+	verifRegister("VerifC15_KOrderFar", VerifC15_KOrderFar)
 	verifRegister("VerifC15_KOrderSign", VerifC15_KOrderSign)
 	verifRegister("VerifC15_KArithAddFrom", VerifC15_KArithAddFrom)
 	verifRegister("VerifC15_KArithFromAdd", VerifC15_KArithFromAdd)
@@ -129,6 +130,32 @@ func VerifC15_KOrderSign() {
 	vAssert((d > 0) == lt, "time-from positive exactly when a < b")
 	vAssert((d == 0) == eq, "time-from zero exactly when a = b")
 	vAssert((d < 0) == gt, "time-from negative exactly when a > b")
+	vCover("end")
+}
+
+// time=, time<, time> are THE order of instants over the whole supported range: seconds drawn
+// from a boundary list spanning years 0001..9999 (incl. both ends of the +-292-year window around
+// 1970 in which a nanosecond count fits 64 bits), nanoseconds arbitrary; the oracle is the plain
+// lexicographic comparison of (seconds, nanoseconds) -- no duration arithmetic involved.
+func VerifC15_KOrderFar() {
+	env := verifEnv()
+	secs := []int64{-62135596800, -11670000000, -9223372037, -9223372036, -1, 0, 1, 951782400, 9223372036, 9223372037, 9223372036 + 18446744073, 32503680000, 253402300799}
+	as := secs[vConcInt(vndChoice("a.sec", len(secs)))]
+	bs := secs[vConcInt(vndChoice("b.sec", len(secs)))]
+	an, bn := vndInt64("a.nsec"), vndInt64("b.nsec")
+	vAssume(an >= 0)
+	vAssume(an < 1000000000)
+	vAssume(bn >= 0)
+	vAssume(bn < 1000000000)
+	a, b := time.Unix(as, an).UTC(), time.Unix(bs, bn).UTC()
+	lt := verifBool(BuiltinTimeLT(env, verifArgs(Time(a), Time(b))))
+	eq := verifBool(BuiltinTimeEq(env, verifArgs(Time(a), Time(b))))
+	gt := verifBool(BuiltinTimeGT(env, verifArgs(Time(a), Time(b))))
+	wantLT := as < bs || (as == bs && an < bn)
+	wantEQ := as == bs && an == bn
+	vAssert(lt == wantLT, "time< is the order of instants over the whole year range")
+	vAssert(eq == wantEQ, "time= holds exactly for the same instant")
+	vAssert(gt == (!wantLT && !wantEQ), "time> is the converse")
 	vCover("end")
 }
 
